@@ -181,6 +181,13 @@ def base_psbts(kit: Kit, rnd: random.Random, thorough: bool) -> list[tuple[Any, 
         else:
             p0 = build_psbt(ins, [TxOut(70_000, ScriptPubKey(bytes.fromhex("0014" + "99" * 20), check_validity=False))], FeeRate(sats_per_kvbyte=2000), bytes.fromhex("5120" + "55" * 32)).psbt
         out.append((p0, mix))
+        if r in (0, 1):
+            # the transaction's own version at the values a library may take for "unset" or "unknown": roles and conversions leave it as it is
+            for ver in ((0, 0xFFFFFFFF) if r == 0 else (1, 3)):
+                pv = copy.deepcopy(p0)
+                pv.tx_version = ver
+                if not isinstance(outcome(lambda: pv.assert_valid()), str):
+                    out.append((pv, mix))
         p2 = p0.to_v2()
         p2.inputs[0].sequence = 0                       # BIP125 gives 0 a meaning: it is a value, not an absence
         if len(p2.inputs) > 1:
